@@ -52,6 +52,7 @@ PROP = {  # subject prefix -> (properties, what failed before the repair)
  "polars datetime keys keep a pandas dtype": ("C02 C12", "polars datetime keys raised TypeError on the chunked route; factorize_2d(sort=True) raised IndexError when every row had a null key"),
  "nanvar/nanstd of too few integer values": ("C20", "nanvar of a single integer returned -2^63 (nanstd: complex NaN) where NumPy returns NaN"),
  "pretty_cut prints bin edges": ("C20", "pretty_cut printed every edge with one decimal: 3.25 was assigned to the bin printed '0.5 - 3.2'"),
+ "var/std clamp the tiny negative variances": ("C16", "std of nearly constant data with a large offset returned NaN (square root of a slightly negative one-pass variance)"),
  "apply returns an empty result": ("C05 C09", "median/apply with nothing selected raised IndexError (was known finding K2)"),
 }
 log = subprocess.run(["git", "-C", "/repo", "log", "--format=%h %s", "be63ad5..HEAD"], stdout=subprocess.PIPE).stdout.decode().splitlines()
